@@ -14,6 +14,12 @@ ENGINES = [
 NOTES = "Property-based testing and fuzzing only. See DESIGN.md. Known findings: /verif/known_findings.json."
 NOT_APPLICABLE = {}
 CHECKS = {
+    "C15": {
+        "text": "Metamorphic check: CoreGen programs and an injective renaming of their user-chosen names into ordinary and special-looking names; verdicts must agree, the output of the renamed program must be the renamed output (Python ast), and no renamed name may capture an identifier the generator itself introduced (scope-aware, via symtable). Two open findings remove the names they concern from the pool.",
+        "design_ref": "DESIGN.md section 6 C15",
+        "note": "User names are recognised by CoreGen's prefix+number form; generator-introduced names are read off out(P). Verdict differences are re-run 10x to separate them from C12's nondeterminism.",
+        "technique": "property-based testing: metamorphic relation under alpha-renaming with a scope-aware capture oracle (Hypothesis)",
+    },
     "C16": {
         "text": "Generated programs in which every support-import trigger (sqrt, nullable/union/tuple/callable/Any types, type aliases, interfaces) occurs at drawn positions with user imports, plus API-shaped and CoreGen programs, both annotate settings; the emitted module is analysed statically (ast + symtable): no unbound global read, each mentioned support name imported exactly once before first use, user imports reproduced.",
         "design_ref": "DESIGN.md section 6 C16",
